@@ -145,6 +145,12 @@ def update_shape_cases(n, seed):
         sets = [("c_1", col("c_1", first.key()))]
         where = P("in", colref=col("k_1", first.key()), query=Select([Item(col("k_1"))], [Group(Base(f"tb_uw{i}", rnd.choice([None, "sa"])))])) if i % 2 else None
         out.append((("update_shape", i), Stmt("update", tgt, None, None, {"set": sets, "from": srcs, "where": where}), ["ansi", rnd.choice(["postgres", "snowflake", "tsql", "redshift", "sqlite"])]))
+        if i % 3 == 0:
+            # T-SQL idiom: the target is named by the alias the FROM clause gives it; the other FROM items are the sources (tsql only: elsewhere
+            # the same text names a table called like the alias, or is rejected for the duplicate name)
+            al = f"x{i}"
+            others = [Group(Base(f"tb_ua{i}", rnd.choice([None, "sa"]), f"a{i}"))]
+            out.append((("update_alias_target", i), Stmt("update", tgt, None, None, {"set": [("c_1", col("c_1", f"a{i}"))], "from": others, "where": where, "alias_target": al}), ["tsql"]))
     return out
 
 
@@ -165,6 +171,12 @@ def classify(stmt, dialect, exp, obs_read, obs_write, ds=None):
     any wrong target, any loss outside the tagged nodes stays a violation."""
     lost = set(exp["read"]) - set(obs_read)
     extra = set(obs_read) - set(exp["read"])
+    if stmt.kind == "update" and stmt.extra.get("alias_target") and dialect == "tsql":
+        # KF-42: the alias is reported as the written table (completed with the default schema), the table it stands for as one more source
+        phantom = f"{ds or '<default>'}.{stmt.extra['alias_target']}"
+        if list(obs_write) == [phantom] and not lost and extra == set(exp["write"]):
+            return ["KF-42"]
+        return None
     if extra:
         return None
     ids = []
